@@ -46,6 +46,7 @@ type Frame struct {
 	regs     map[ssa.Value]Val
 	defers   []deferred
 	parent   *Frame
+	site     ssa.Instruction // the call instruction (in parent.fn) this frame was inlined at
 	depth    int
 	params   []Val // entry values of parameters
 	contract *Contract
@@ -119,6 +120,7 @@ type dryInfo struct {
 // Ctx is the per-function verification context.
 type Ctx struct {
 	eng        *Engine
+	hooksFired map[string]bool // every `at call` hook key that matched a call on any path
 	eventsSeen map[string]bool // every event name produced on any path (vacuity guard for event literals in contracts)
 	fn         *ssa.Function
 	contract   *Contract
